@@ -351,6 +351,33 @@ func c13NonCanonical(r *vf.Rand, msg []byte, mode string) []c13Case {
 			}
 		}
 	}
+	// MIXED-order public keys A = [s]B + T (T of order 2 or 4: a canonical point that is neither small-order nor in the
+	// prime-order subgroup, so [L]A = [L]T ≠ identity) with a signature crafted for the reduced-k equation:
+	// R = [r]B + T2, S = r + k·s mod L, accepted iff [k mod L]T + T2 = identity.  Anything that replaces −[k]A by
+	// [L−k]A, or multiplies A by a scalar that is only right modulo L, is wrong exactly here.
+	for _, T := range c13SmallOrder[1:] {
+		sk := new(big.Int).Mod(new(big.Int).SetBytes(r.Bytes(56)), grpEdL)
+		pk := grpEdEncode(grpEdAdd(grpEdMul(sk, grpEdBase()), T))
+		rr := new(big.Int).Mod(new(big.Int).SetBytes(r.Bytes(56)), grpEdL)
+		rB := grpEdMul(rr, grpEdBase())
+		valid, invalid := false, false
+		for try := 0; try < 16 && !(valid && invalid); try++ {
+			R := grpEdEncode(grpEdAdd(rB, c13SmallOrder[r.Intn(4)]))
+			k := grpLE(c13Shake(114, c13Dom4(0, nil), R, pk, msg))
+			S := new(big.Int).Mod(new(big.Int).Add(rr, new(big.Int).Mul(new(big.Int).Mod(k, grpEdL), sk)), grpEdL)
+			sig := append(append([]byte{}, R...), c16pLE(S, 57)...)
+			if ok, _ := c13RefVerify(pk, msg, sig, nil, "reducedK"); ok {
+				if !valid {
+					add("mixed-order:pk-valid-reducedK", pk, sig)
+					add("mixed-order:pk-valid-S+L", pk, c13SetS(sig, new(big.Int).Add(S, grpEdL)))
+				}
+				valid = true
+			} else if !invalid {
+				add("mixed-order:pk-invalid-by-torsion", pk, sig)
+				invalid = true
+			}
+		}
+	}
 	// CROSS product: every public key of order <= 4 (canonical encoding) x R in {the four points of order <= 4 — this
 	// contains -[k]A whenever that is consistent with the hash} x S in {0, 1, L-1} and S >= L in all its classes.
 	// Expectation from the spec: every S >= L is rejected whatever R and A are; below L the reduced-k equation decides.
